@@ -60,9 +60,10 @@ def expand(recs, branch, q, seed):
     cases.sort(key=lambda c: (c["kind"], c["T"], c["n1"], c.get("r", []), c.get("alt", "")))
     aux = []
     reps = 3 if q else 12
-    for row in sorted(branch, key=lambda r: (r["n1"], r["n2"], r["ties"])):
+    for row in sorted(branch, key=lambda r: (r.get("el", 0), r["n1"], r["n2"], r["ties"])):
         for k in range(reps):
-            aux.append({"kind": "approx", "n1": row["n1"], "n2": row["n2"], "ties": row["ties"], "exact": row["exact"]})
+            aux.append({"kind": "approx", "n1": row["n1"], "n2": row["n2"], "ties": row["ties"], "exact": row["exact"],
+                        "el": row.get("el", 0), "tl": row.get("tl", 0)})
     cases += aux
     for i, c in enumerate(cases):
         c["id"] = i
@@ -93,7 +94,18 @@ def run(ctx):
         raise vlib.Infra("generator produced %d records, %d branch tables" % (len(recs), len(branch)))
     if len(recs) * 2 != g.distinct:
         raise vlib.Infra("generator printed %d records for %d tabulated inputs" % (len(recs), g.distinct // 2))
-    cases, nontriv, ncls, ndist, naux = expand(recs, branch[0]["rows"], q, ctx.seed)
+    rows = list(branch[0]["rows"])
+    # the limits are exported variables of the package: the branch follows them when a caller changes
+    # them (the same table computed by the spec for other values of ExactLimit / TiesExactLimit)
+    for cfg, el, tl in (("UTest_gen_limits_lo.cfg", 8, 5), ("UTest_gen_limits_hi.cfg", 50, 30)):
+        g2 = ctx.tlc("UTest_gen.tla", cfg, timeout=900, label="gen-limits", count=False)
+        b2 = g2.printed_json("branch")
+        if len(b2) != 1:
+            raise vlib.Infra("%s printed %d branch tables" % (cfg, len(b2)))
+        for r in b2[0]["rows"]:
+            if (r["n1"] <= 31 and r["n2"] <= 31) or not r["exact"]:
+                rows.append(dict(r, el=el, tl=tl))
+    cases, nontriv, ncls, ndist, naux = expand(recs, rows, q, ctx.seed)
     smp = [c for c in cases if c["kind"] == "class" and len(c["T"]) == 3 and max(c["T"]) == 2 and c["alt"] == "greater"]
     ctx.add_samples([{k: v for k, v in smp[len(smp) // 2].items() if k != "ab"}], 1)
     smp = [c for c in cases if c["kind"] == "dist" and c["T"] == [2, 1] and c["n1"] == 1]
